@@ -140,6 +140,21 @@ pub mod proofs {
         assert!(f.next([x])[0] == x.abs());
     }
 
+    /// a detector cloned mid-stream carries the whole state: gains, previous envelope (and so the same next output)
+    #[kani::proof]
+    pub fn c19_clone_keeps_state() {
+        let mut det: Detector<[f32; 2], _> = Detector::peak(0.0, 7.0);
+        let x = [dyadic(4, 4), dyadic(4, 4)];
+        let _ = det.next(x);
+        let mut cl = det.clone();
+        assert!(cl.verif_gains() == det.verif_gains(), "P: clone keeps the gains");
+        let (a, b) = (cl.verif_last_env(), det.verif_last_env());
+        assert!(a[0].to_bits() == b[0].to_bits() && a[1].to_bits() == b[1].to_bits(), "P: clone keeps the previous envelope");
+        let y = [0.0f32, 0.0];
+        let (o1, o2) = (cl.next(y), det.next(y));
+        assert!(o1[0].to_bits() == o2[0].to_bits() && o1[1].to_bits() == o2[1].to_bits(), "P: a clone continues exactly like the original");
+    }
+
     /// no overshoot: for dyadic previous envelope and detected value (exact difference) the new envelope lies
     /// between them, and equals the detected value when the gain is 0
     #[kani::proof]
